@@ -778,7 +778,7 @@ def index(base: T, idx: Tuple[T, ...], ranks: Optional[RankEnv] = None) -> T:
         cv = idx[0].const_value() if isinstance(idx[0], Poly) else None
         if cv is not None and cv.denominator == 1 and -len(base.elems) <= cv < len(base.elems):
             return base.elems[int(cv)]
-    if isinstance(base, Comp) and not base.conds and base.kind == "list" and len(idx) == 1 and not isinstance(idx[0], Slc):
+    if isinstance(base, Comp) and not base.conds and base.kind in ("list", "gen") and len(idx) == 1 and not isinstance(idx[0], Slc):
         # element k of [elt(v) for v in range(lo, hi, step)] is elt(lo + k*step)
         if isinstance(base.iter, Range):
             v = add(base.iter.lo, mul(idx[0], base.iter.step))
@@ -873,6 +873,9 @@ def make_app(fn: str, args, kw=None) -> T:
         # commutative
         a, b = sorted(args, key=lambda t: t.key)
         return App(fn.split(".")[1], (a, b))
+    if fn in ("builtins.list", "builtins.tuple") and len(args) == 1 and isinstance(args[0], Comp) and args[0].kind == "gen":
+        c = args[0]
+        return Comp(c.elt, c.var, c.iter, c.conds, "list")     # materialised generator
     if fn == "builtins.list" and len(args) == 1 and isinstance(args[0], (Lst, Cat, Rep, Comp)):
         return args[0]
     return App(fn, args, kw)
